@@ -26,7 +26,7 @@ open Ro.Share
 /-! ## ShareWithConfig -/
 
 /-- every reachable state satisfies the invariant the other theorems rest on -/
-theorem share_invariant (cfg : Cfg) (evs : List Event) : Inv (run cfg evs) := inv_run cfg evs
+theorem share_invariant (cfg : Cfg) (evs : List Event) : Inv Pend.idle (run cfg evs) := inv_run cfg evs
 
 /-- **at most one live upstream subscription, at any time** (after every prefix of every event
     sequence: `evs` is arbitrary) -/
@@ -60,7 +60,7 @@ theorem later_subscribers_join (cfg : Cfg) (evs : List Event) (g : Nat) (h : (ru
 /-- … and what the joiner receives at once is what the connector hands out on subscription
     (nothing / the last value / the buffered values); nobody else's record changes -/
 theorem joiner_receives_connector_replay (cfg : Cfg) (evs : List Event) (g : Nat)
-    (h : (run cfg evs).subject = some g) (ha : GenActive (run cfg evs) g) :
+    (h : (run cfg evs).subject = some g) (ha : GenActive Pend.idle (run cfg evs) g) :
     ((step cfg (run cfg evs) .sub).subs (run cfg evs).nsubs).trace = Spec.joined cfg.conn ((run cfg evs).gens g).subj ∧
     ((step cfg (run cfg evs) .sub).subs (run cfg evs).nsubs).status = 0 ∧
     (∀ k, k ≠ (run cfg evs).nsubs → (step cfg (run cfg evs) .sub).subs k = (run cfg evs).subs k) := by
@@ -88,11 +88,11 @@ theorem unsubscribe_keeps_upstream (cfg : Cfg) (evs : List Event) (i : Nat)
     execution, `subscribe_upstream_iff_no_generation`), otherwise the generation is latched with the
     terminal stored -/
 theorem after_source_terminal (cfg : Cfg) (evs : List Event) (g : Nat) (t : Ev) (ht : t.isTerminal = true)
-    (h : (run cfg evs).subject = some g) (ha : GenActive (run cfg evs) g) :
+    (h : (run cfg evs).subject = some g) (ha : GenActive Pend.idle (run cfg evs) g) :
     (step cfg (run cfg evs) (.src t)).live = 0 ∧ openSubs (step cfg (run cfg evs) (.src t)) = [] ∧
     (step cfg (run cfg evs) (.src t)).subject = (if cfg.flags.resetsOn t then none else some g) ∧
     (step cfg (run cfg evs) (.src t)).total = (run cfg evs).total ∧
-    (cfg.flags.resetsOn t = false → GenLatched (step cfg (run cfg evs) (.src t)) g ∧
+    (cfg.flags.resetsOn t = false → GenLatched Pend.idle (step cfg (run cfg evs) (.src t)) g ∧
       ((step cfg (run cfg evs) (.src t)).gens g).subj.status = Status.ofTerminal t ∧
       ((step cfg (run cfg evs) (.src t)).gens g).subj.buf = ((run cfg evs).gens g).subj.buf) :=
   src_terminal cfg t ht (inv_run cfg evs) h ha
@@ -101,7 +101,7 @@ theorem after_source_terminal (cfg : Cfg) (evs : List Event) (g : Nat) (t : Ev) 
     stored values (replay) and the stored terminal, no upstream subscription is made, nothing else
     changes … -/
 theorem latched_subscriber_is_replayed (cfg : Cfg) (evs : List Event) (g : Nat)
-    (h : (run cfg evs).subject = some g) (hl : GenLatched (run cfg evs) g) :
+    (h : (run cfg evs).subject = some g) (hl : GenLatched Pend.idle (run cfg evs) g) :
     ((step cfg (run cfg evs) .sub).subs (run cfg evs).nsubs).trace = Spec.late cfg.conn ((run cfg evs).gens g).subj ∧
     (step cfg (run cfg evs) .sub).gens = (run cfg evs).gens ∧
     (step cfg (run cfg evs) .sub).total = (run cfg evs).total ∧ (step cfg (run cfg evs) .sub).live = 0 := by
@@ -111,8 +111,8 @@ theorem latched_subscriber_is_replayed (cfg : Cfg) (evs : List Event) (g : Nat)
 
 /-- … for ever: whatever event follows, the generation stays latched with the same stored state -/
 theorem latched_is_absorbing (cfg : Cfg) (evs : List Event) (g : Nat) (e : Event)
-    (h : (run cfg evs).subject = some g) (hl : GenLatched (run cfg evs) g) :
-    (step cfg (run cfg evs) e).subject = some g ∧ GenLatched (step cfg (run cfg evs) e) g ∧
+    (h : (run cfg evs).subject = some g) (hl : GenLatched Pend.idle (run cfg evs) g) :
+    (step cfg (run cfg evs) e).subject = some g ∧ GenLatched Pend.idle (step cfg (run cfg evs) e) g ∧
     (step cfg (run cfg evs) e).gens = (run cfg evs).gens ∧ (step cfg (run cfg evs) e).live = 0 ∧
     (step cfg (run cfg evs) e).total = (run cfg evs).total :=
   latched_forever cfg (inv_run cfg evs) h hl e
